@@ -101,8 +101,8 @@ macro_rules! fam {
     };
 }
 
-// quick: ONE registration of a ONE-segment path (two-segment registrations blow the SAT instance past 26 GB: the
-// `c17_x_*` families below are kept for documentation and are not selected by any tier)
+// quick: ONE registration of a ONE-segment path (two-segment registrations blow the SAT instance past 26 GB in this
+// std build: the `c17_x_*` families below are kept for documentation and are not selected by any tier; see hk_pathmap)
 fam1!(c17_q_pathmap1_exact, "a", "a", false);
 fam1!(c17_q_pathmap1_descendant, "a", "a::b::c", false);
 fam1!(c17_q_pathmap1_prefix_sibling, "a", "aa", true);
@@ -132,4 +132,6 @@ pub fn c17_w_twin_prefix_is_textual() {
 
 // (A lookup-only formulation on explicit two-level trees through an injected constructor was also tried:
 //  `MinLevelPathMap::matches` on root -> [a -> [b], aa] with symbolic rule presence ran out of 26 GB in CBMC's
-//  propositional reduction after 237 s. Nested rules in the path map are therefore NOT decided; see prop_C17.py.)
+//  propositional reduction after 237 s. Nested rules, registration order and repeats are decided by the group hk_pathmap
+//  (harness/hk_pathmap/src/c17_nested.rs: alloc-only build, harness level type, CBMC field sensitivity raised so that Vec
+//  buffers constant-propagate); this file keeps the one-registration families at L = Level with typed event levels.)
